@@ -753,3 +753,98 @@ func pollute(r *rand.Rand) {
 		f.Call(am.Named("a", T0{ID: -5}))
 	}
 }
+
+// runC11Shapes: run-once functions of unusual shapes — no results at all,
+// only an error result, built with BuildFunc — used several times, directly
+// and as converters: one execution, later uses observe its outputs.
+func runC11Shapes(c *CaseCtx, r *rand.Rand) (res CaseResult) {
+	res.NonTrivial = true
+	shape := r.Intn(3)
+	res.Key = fmt.Sprintf("run-once-shape %d", shape)
+	res.obs("family.run-once-shapes", 1)
+	det := map[string]interface{}{"case": res.Key}
+	defer func() {
+		if p := recover(); p != nil {
+			res.violate("C06", "panic/"+crashKey(fmt.Sprint(p)), fmt.Sprintf("panicked: %v", p), det)
+		}
+	}()
+	execs := 0
+	switch shape {
+	case 0, 1:
+		var fn interface{}
+		if shape == 0 {
+			fn = func(a T0) { execs++ }
+		} else {
+			fn = func(a T0) error { execs++; return nil }
+		}
+		f, err := am.NewFunc(fn, am.FuncOnce())
+		if err != nil {
+			res.Skip = "newfunc"
+			return res
+		}
+		var callee []*am.Func
+		callee = append(callee, f)
+		if rf, err := f.Redefine(); err == nil && r.Intn(2) == 0 {
+			callee = append(callee, rf)
+		}
+		n := 3 + r.Intn(3)
+		for k := 0; k < n; k++ {
+			rr := pick(r, callee).Call(am.Typed(T0{ID: int64(k + 1)}))
+			res.Evals++
+			if rr.Err() != nil {
+				res.violate("C11", "later-use-fails", "a use of the run-once function failed: "+firstLine(errStr(rr.Err())), det)
+			}
+		}
+		if execs != 1 {
+			res.violate("C11", "once-reexecuted", fmt.Sprintf("run-once function without result values executed %d times over %d uses", execs, n), det)
+		}
+	default:
+		in, _ := am.NewValueSet([]am.Value{{Name: "a", Type: types[0]}})
+		out, _ := am.NewValueSet([]am.Value{{Name: "b", Type: types[1]}})
+		built, err := am.BuildFunc(in, out, func(in, out *am.ValueSet) error {
+			execs++
+			out.Named("b").Value = reflect.ValueOf(T1{ID: int64(500 + execs)})
+			return nil
+		}, am.FuncOnce())
+		if err != nil {
+			res.Skip = "buildfunc"
+			return res
+		}
+		var seen []int64
+		tgt, _ := am.NewFunc(func(x struct {
+			am.Struct
+			B T1
+		}) {
+			seen = append(seen, x.B.ID)
+		})
+		n := 3 + r.Intn(3)
+		for k := 0; k < n; k++ {
+			if r.Intn(2) == 0 {
+				rr := built.Call(am.Named("a", T0{ID: int64(k + 1)}))
+				if rr.Err() == nil && rr.Len() == 1 {
+					if v := reflect.ValueOf(rr.Out(0)); v.Kind() == reflect.Struct && v.NumField() == 2 {
+						id, _ := idOf(v.Field(1))
+						seen = append(seen, id)
+					}
+				}
+			} else {
+				tgt.Call(am.Named("a", T0{ID: int64(k + 1)}), am.ConverterFunc(built))
+			}
+			res.Evals++
+		}
+		if execs != 1 {
+			res.violate("C11", "once-reexecuted", fmt.Sprintf("run-once function built with BuildFunc executed its callback %d times over %d uses", execs, n), det)
+		}
+		for _, id := range seen {
+			if id != 501 {
+				res.violate("C11", "later-execution-observed", fmt.Sprintf("a use observed #%d, the first execution produced #501", id), det)
+				break
+			}
+		}
+		if len(seen) != n {
+			res.violate("C11", "later-use-fails", fmt.Sprintf("%d of %d uses of the built run-once function delivered a value", len(seen), n), det)
+		}
+	}
+	res.Sample = det
+	return res
+}
